@@ -5,6 +5,7 @@ shapes the analyser uses are rewritten by RULE (no per-site text), on the extrac
     RECV.map(|P| B)                 ->  match RECV { Some(P) => Some(B), None => None }
     RECV.and_then(|P| B)            ->  match RECV { Some(P) => B, None => None }
     RECV.map_or_else(|| A, |P| B)   ->  match RECV { Some(P) => B, None => A }
+    RECV.map(Enum::Variant)         ->  match RECV { Some(oq3_x) => Some(Enum::Variant(oq3_x)), None => None }
   Iterator receiver (the call is followed by `.collect()` / `.collect::<..>()`)
     RECV.map(|P| B).collect()       ->  { let mut oq3_itK = RECV; let mut oq3_vK = Vec::new();
                                           loop { match oq3_itK.next() { Some(P) => { let oq3_eK = B; oq3_vK.push(oq3_eK); }
@@ -24,6 +25,7 @@ from .rustsrc import RustFile
 
 METHODS = ('map', 'and_then', 'filter_map', 'map_or_else')
 _CALL = re.compile(r'\.\s*(map|and_then|filter_map|map_or_else)\s*\(\s*\|')
+_MAP_PATH = re.compile(r'\.\s*map\s*\(\s*([A-Z][A-Za-z0-9_]*(?:::[A-Za-z_][A-Za-z0-9_]*)+)\s*\)')
 _COLLECT = re.compile(r'\s*\.\s*collect\s*(::\s*<\s*Vec\s*<\s*_\s*>\s*>)?\s*\(\s*\)')
 
 
@@ -162,6 +164,19 @@ def desugar_closures(text):
         rf = RustFile('<fn>', text)
         code = rf.code
         cands = [m for m in _CALL.finditer(text, 0, skip_from) if code[m.start()]]
+        pm_ = [m for m in _MAP_PATH.finditer(text) if code[m.start()]]
+        if pm_:
+            # RECV.map(Path)  ->  match RECV { Some(oq3_x) => Some(Path(oq3_x)), None => None }   (Option::map with a constructor)
+            m = pm_[-1]
+            try:
+                recv0 = _recv_start(text, code, m.start())
+            except NoRule as ex:
+                raise NoRule('`.map(%s)`: %s' % (m.group(1), ex))
+            recv = text[recv0:m.start()].rstrip()
+            text = text[:recv0] + 'match %s { Some(oq3_x) => Some(%s(oq3_x)), None => None }' % (recv, m.group(1)) + text[m.end():]
+            log.append('D3 Option::map(%s): `%s…`' % (m.group(1), ' '.join(recv.split())[:50]))
+            skip_from = len(text)
+            continue
         if not cands:
             return text, log
         m = cands[-1]
